@@ -289,11 +289,22 @@ class Explorer:
                     for inp, (bb, r, ar) in zip(ok, rs):
                         self.record(bb, inp, mode, r, arith=ar)
         dt = time.time() - t0
+        if os.environ.get("C15_DUMP"):
+            self.dump(os.environ["C15_DUMP"])
         print("  %-28s %-4s inputs=%-8d %.1fs  (evaluations so far %d, failing %d; child time %.0fs, slowest %.1fs %s, "
               "timeouts %d)" % (name, b["flavour"], n, dt, ck.evaluations, self.failed_keys, self.us_sum / 1e6,
                                 self.us_max[0] / 1e6, self.us_max[1][:60], self.n_timeouts), flush=True)
         self.us_sum, self.us_max = 0.0, (0.0, "")
         return True
+
+    def dump(self, path):
+        """Development aid: write the failure buckets seen so far."""
+        import json
+        with open(path, "w") as f:
+            json.dump({s: {"count": b["count"],
+                           "members": [(m[0], m[1][0], m[1][1], m[1][2], m[1][3].decode("latin-1"), m[2], m[3], m[4])
+                                       for m in b["members"][:50]]}
+                       for s, b in self.buckets.items()}, f, indent=1)
 
     # ---------------------------------------------------------------- single-case reruns
     def rerun(self, b, inp, mode, timeout_ms=10000):
@@ -325,12 +336,8 @@ class Explorer:
             for sig in sorted(self.buckets, key=lambda s: -self.buckets[s]["count"]):
                 print("  %6d  %s  <- %s" % (self.buckets[sig]["count"], sig, self.buckets[sig]["members"][0][0][:120]),
                       flush=True)
-        dump = os.environ.get("C15_DUMP")
-        if dump:
-            import json
-            with open(dump, "w") as f:
-                json.dump({s: {"count": b["count"], "members": [(m[0], m[1][0], m[1][1], m[1][2], m[1][3].decode("latin-1"), m[2], m[3], m[4]) for m in b["members"][:50]]}
-                           for s, b in self.buckets.items()}, f, indent=1)
+        if os.environ.get("C15_DUMP"):
+            self.dump(os.environ["C15_DUMP"])
         for sig in sorted(self.buckets, key=lambda s: (len(self.buckets[s]["members"][0][1][3]), s)):
             bk = self.buckets[sig]
             summary[sig] = {"count": bk["count"], "smallest": bk["members"][0][0]}
@@ -481,35 +488,44 @@ def main():
                   "#if operators over 6 values; .N and -D alphabets; include" % len(G.DLINES))
     else:
         brel = builds["rel"]
-        complete = quick_space(brel, flag_rel=True)
         F = lambda *a, **k: ex.family(brel, *a, flag_rel=True, **k)
+
+        def sanitizer_pass(tag):
+            """Everything the release run flagged since the last pass, on the sanitizer build."""
+            flagged, ex.rel_flagged = ex.rel_flagged, []
+            uniq = []
+            for inp in flagged:
+                k = (inp[2], inp[3])
+                if k not in seen_flagged:
+                    seen_flagged.add(k)
+                    uniq.append(inp)
+            ck.extra["rel_flagged_for_sanitizer_pass"] = len(seen_flagged)
+            return ex.family(basan, "flagged-by-rel:" + tag, uniq, modes=("I",))
+
+        seen_flagged = set()
+        # 1. the release build on the quick space and on the larger single-edit / depth-3 space
+        complete = quick_space(brel, flag_rel=True)
         complete &= F("if-expr:8", fam_if(G.VALUES), modes=("I", "E"))
         complete &= F("bytes:n=3:39", fam_bytes(G.A39, 3, 3), modes=("I",))
         complete &= F("tokens:m=3:47", fam_tokens(G.TOKENS, 3, 3), modes=("I",))
         complete &= F("tokens-bare:m<=2", fam_tokens_bare(G.TOKENS, 1, 2), modes=("I", "E"))
+        complete &= F("directives:k=3", fam_dlines(3, 3, lines=G.DLINES[:40]), modes=("I",))
         complete &= F("edit-token:all", fam_edits(files[14:], G.TOKENS, G.token_edits, "edit-token"), modes=("I",))
         complete &= F("edit-byte:all", fam_edits(files[4:], G.A39, G.byte_edits, "edit-byte"), modes=("I",))
-        complete &= F("directives:k=3", fam_dlines(3, 3, lines=G.DLINES[:40]), modes=("I",))
-        complete &= F("edit2-byte", fam_edits(files[:2], G.A32, G.double_byte_edits, "edit2-byte"), modes=("I",))
-        complete &= F("bytes:n=4", fam_bytes(G.A32, 4, 4), modes=("I",))
-        complete &= F("tokens:m=4", fam_tokens(G.TOKENS30, 4, 4), modes=("I",))
-        # sanitizer pass: the quick space, then everything the release run flagged
-        flagged = ex.rel_flagged
-        ex.rel_flagged = []
-        ck.extra["rel_flagged_for_sanitizer_pass"] = len(flagged)
+        # 2. the sanitizer build on the quick space and on what the release runs flagged
         complete &= quick_space(basan)
-        seen = set()
-        uniq = []
-        for inp in flagged:
-            k = (inp[2], inp[3])
-            if k not in seen:
-                seen.add(k)
-                uniq.append(inp)
-        complete &= ex.family(basan, "flagged-by-rel", uniq, modes=("I",))
+        complete &= sanitizer_pass("1")
+        # 3. depth 4 and double edits on the release build, flagged inputs on the sanitizer build
+        complete &= F("edit2-token", fam_edits(files[:1], G.TOKENS30, G.double_token_edits, "edit2-token"), modes=("I",))
+        complete &= F("edit2-byte", fam_edits(files[:1], G.A8, G.double_byte_edits, "edit2-byte"), modes=("I",))
+        complete &= F("tokens:m=4", fam_tokens(G.TOKENS30, 4, 4), modes=("I",))
+        complete &= F("bytes:n=4", fam_bytes(G.A32, 4, 4), modes=("I",))
+        complete &= sanitizer_pass("2")
         bounds = ("release build: bytes n<=3 over 39 symbols, n=4 over 32; tokens m<=3 over 47, m=4 over 30; "
                   "directive lines k<=2 over %d, k=3 over 40; single byte and token edits of all %d corpus "
-                  "files; double byte edits of 2 files; sanitizer build: quick space + %d inputs flagged by "
-                  "the release run" % (len(G.DLINES), len(files), len(uniq)))
+                  "files; double byte (8 symbols) and token (30 tokens) edits of the smallest file; sanitizer "
+                  "build: quick space + %d inputs flagged by the release run"
+                  % (len(G.DLINES), len(files), len(seen_flagged)))
 
     ex.cross_check()
     ex.report(builds)
